@@ -15,7 +15,7 @@ Cases ==
   \cup UNION {{<<"iph6.set_payload_len", <<x>>, v>> : v \in Probe(U16MAX - x)} : x \in {0, 8, 40}}
   \cup UNION {{<<a, <<>>, v>> : v \in (Probe(U16MAX - 8) \ (IF a = "udp.without_ipv4_checksum" THEN {} ELSE {Huge}))}
               : a \in {"udp.without_ipv4_checksum", "udp.with_ipv4_checksum", "udp.with_ipv6_checksum", "udp.calc_checksum_ipv4"}}
-  \cup UNION {{<<"tcp.calc_checksum_ipv4", <<o>>, v>> : v \in Probe(U16MAX - 20 - o) \ {Huge}} : o \in {0, 12, 40}}
+  \cup UNION {{<<a, <<o>>, v>> : v \in Probe(U16MAX - 20 - o) \ {Huge}, a \in {"tcp.calc_checksum_ipv4", "tcp.hslice.calc_checksum_ipv4", "tcp.slice.calc_checksum_ipv4"}} : o \in {0, 12, 40}}
   \cup UNION {{<<"macsec.set_payload_len", <<u>>, v>> : v \in (0..70) \cup {255, 256, 65535, Huge}} : u \in {0, 1}}
   \cup UNION {{<<a, <<>>, v>> : v \in (0..13) \cup (1010..1022) \cup {2000}} : a \in {"auth.new", "auth.set_raw_icv"}}
   \cup UNION {{<<a, <<>>, v>> : v \in (0..24) \cup (2036..2050) \cup {4000}} : a \in {"rawext.new_raw", "rawext.set_payload"}}
